@@ -119,6 +119,31 @@ Definition op_order_by (desc : bool) (rows : list (list value)) : list (list val
 
 (* ---- the differential cases ----------------------------------------------------------------------- *)
 
+Fixpoint zip_compare (a b : list value) : list Z :=
+  match a, b with
+  | x :: xs, y :: ys => vcompare x y :: zip_compare xs ys
+  | _, _ => []
+  end.
+
+Definition in_range (c : Z) : bool := (c =? -1) || (c =? 0) || (c =? 1).
+
+(* "less" read off elementwise comparison answers: first non-zero answer decides by its sign, then the shorter key *)
+Fixpoint obs_less (cs : list Z) (n1 n2 : nat) : bool :=
+  match cs with
+  | c :: rest => if c =? 0 then obs_less rest (Nat.pred n1) (Nat.pred n2) else c <? 0
+  | [] => Nat.ltb n1 n2
+  end.
+
+Definition b2z (b : bool) : Z := if b then 1 else 0.
+
+(* the comparison functions of functions/functions.go, all Strict (a NULL argument gives NULL):
+   = / != are Value.Equal, the order operators read the sign of Compare, IN is Equal against each tuple element *)
+Definition expr_model (a b b2 : value) : list Z :=
+  let strict2 (r : bool) := if is_null a || is_null b then 2 else b2z r in
+  [ strict2 (vequal a b); strict2 (negb (vequal a b));
+    strict2 (vcompare a b <? 0); strict2 (vcompare a b <=? 0); strict2 (0 <? vcompare a b); strict2 (0 <=? vcompare a b);
+    if is_null a then 2 else b2z (vequal a b || vequal a b2) ].
+
 Inductive c09_case : Type :=
 | CMatrix (vals : list value)              (* n values *)
           (cmp : list (list Z))            (* observed vals[i].Compare(vals[j]) *)
@@ -127,6 +152,13 @@ Inductive c09_case : Type :=
 | CSlices (k1 k2 : list value)
           (l12 l21 : bool)                 (* observed execution.CompareValueSlices(k1,k2), (k2,k1) *)
           (h1 h2 : Z)                      (* observed octosql.HashManyValues *)
+          (c12 c21 : list Z)               (* observed k1[i].Compare(k2[i]) and k2[i].Compare(k1[i]), i < min length *)
+(* the comparison operators resolved by the real typechecker for two columns of one static type *)
+| CExpr (env : Z)                          (* which static typing of the columns (engine's enum; not used by the model) *)
+        (a b b2 : value)
+        (cab cab2 : Z)                     (* observed a.Compare(b), a.Compare(b2) *)
+        (outs : list Z)                    (* a = b, a != b, a < b, a <= b, a > b, a >= b, a IN (b, b2):
+                                              0 false, 1 true, 2 NULL, 3 anything else (error, panic, other value) *)
 | COps (desc : bool) (rows : list (list value))
        (o_distinct o_sgb o_ctgb : list (list value)) (o_cd : Z) (o_order : list (list value)).
 
@@ -157,9 +189,11 @@ Definition c09_tie (c : c09_case) : bool :=
       list_eqb (list_eqb Z.eqb) (map (fun a => map (vcompare a) vals) vals) cmp
       && list_eqb Z.eqb (map vhash vals) hashes
       && list_eqb (list_eqb Bool.eqb) (map (fun a => map (vequal a) vals) vals) eqs
-  | CSlices k1 k2 l12 l21 h1 h2 =>
+  | CSlices k1 k2 l12 l21 h1 h2 c12 c21 =>
       Bool.eqb (slices_less k1 k2) l12 && Bool.eqb (slices_less k2 k1) l21
       && (vhash_many k1 =? h1) && (vhash_many k2 =? h2)
+      && list_eqb Z.eqb (zip_compare k1 k2) c12 && list_eqb Z.eqb (zip_compare k2 k1) c21
+  | CExpr _ a b b2 _ _ outs => list_eqb Z.eqb (expr_model a b b2) outs
   | COps desc rows od os oc cd oo =>
       same_arity rows
       && rows_eqb (op_distinct rows) od
@@ -222,9 +256,18 @@ Definition c09_spec (c : c09_case) : bool :=
       let n := length vals in
       mx_shape n cmp hashes eqs && mx_range cmp && mx_refl n cmp && mx_antisym n cmp && mx_trans cmp
       && mx_cong cmp && mx_hash cmp hashes && mx_equal vals cmp eqs
-  | CSlices k1 k2 l12 l21 h1 h2 =>
+  | CSlices k1 k2 l12 l21 h1 h2 c12 c21 =>
       negb (l12 && l21) &&
       (if Nat.eqb (length k1) (length k2) then (if negb l12 && negb l21 then h1 =? h2 else true)
        else xorb l12 l21)          (* keys of different lengths are never the same tree item *)
-  | COps _ _ _ _ _ _ _ => true      (* the partition oracle of the operator runs is evaluated by the engine *)
+      (* CompareValueSlices is the lexicographic order of the implementation's own Compare answers *)
+      && forallb in_range c12 && forallb in_range c21
+      && Nat.eqb (length c12) (Nat.min (length k1) (length k2)) && Nat.eqb (length c21) (length c12)
+      && Bool.eqb l12 (obs_less c12 (length k1) (length k2)) && Bool.eqb l21 (obs_less c21 (length k2) (length k1))
+  | CExpr _ a b b2 cab cab2 outs =>
+      if is_null a || is_null b then true
+      else list_eqb Z.eqb outs
+             [b2z (cab =? 0); b2z (negb (cab =? 0)); b2z (cab <? 0); b2z (cab <=? 0); b2z (0 <? cab); b2z (0 <=? cab);
+              b2z ((cab =? 0) || (negb (is_null b2) && (cab2 =? 0)))]
+  | COps _ _ _ _ _ _ _ => true      (* the partition oracle of the operator runs (and of the self equi-join) is evaluated by the engine *)
   end.
